@@ -798,6 +798,9 @@ def run(ctx):
                 break
     finally:
         W.uninstall()
+    # the effort function entered several times on one client object (state carried between invocations)
+    from . import c10_reentry
+    c10_reentry.run(ctx)
     cuts = [region_cut(sc, o) for sc, o in zip(scs, results)]
     answers = C.batch('reconnect', [model_line(sc, o, cut) for sc, o, cut in zip(scs, results, cuts)])
     nontrivial = set()
@@ -888,6 +891,13 @@ def run(ctx):
 
 def replay(ctx, r):
     from .. import world_reconnect as W
+    rc = r.get('replay', {}).get('reentry') or r.get('reentry')
+    if rc:
+        from . import c10_reentry
+        bad = c10_reentry.run_case(rc)
+        print('effort re-entry case:', json.dumps(rc))
+        print('oracle:', 'violations: %s' % bad if bad else 'holds')
+        return 1 if bad else 0
     sc = r.get('replay', {}).get('scenario') or r.get('scenario')
     if not sc:
         print(json.dumps(r, indent=1))
